@@ -13,7 +13,7 @@
    expansion) and every production handle is one of the grammar's own productions; and the levels equal
    those of spec.Parse. *)
 From Coq Require Import String List Bool NArith.
-From Verif Require Import Cfg.Ebnf Cfg.Translate Emerge.SpecModel Emerge.SpecWf Emerge.SpecLevels Emerge.Pipeline.
+From Verif Require Import Cfg.Ebnf Cfg.Translate Emerge.SpecModel Emerge.SpecWf Emerge.SpecLevels Emerge.SpecSigma Emerge.Pipeline.
 From VerifGen Require Import RuneGo.
 Import ListNotations.
 
@@ -31,6 +31,15 @@ Theorem every_production_handle_is_a_production_of_the_grammar :
   forall ds lv A b, In lv (s_precs (translate_spec ds)) -> In (PHProd A b) (snd lv) -> In (A, b) (s_prods (translate_spec ds)).
 Proof. intros ds lv A b. exact (production_handles_are_productions terminal_names predefs_s ds lv A b). Qed.
 Print Assumptions every_production_handle_is_a_production_of_the_grammar.
+
+(* THE LEVELS ARE THE DIRECTIVES: the recorded list of levels equals, as a list, the declarative reading of the directives
+   - one level per directive in source order, its associativity, and for its handles in the order written: the terminal
+   itself, or one production handle per alternative of a rule handle's expansion ([sigma] under the naming the memo ends
+   up with; the empty production for an empty rule handle).  Every declaration list, no premise. *)
+Theorem recorded_levels_are_exactly_the_directives :
+  forall ds, s_precs (translate_spec ds) = directive_levels (spec_nu ds) ds.
+Proof. intros ds. exact (recorded_levels_are_the_directives terminal_names predefs_s ds). Qed.
+Print Assumptions recorded_levels_are_exactly_the_directives.
 
 Fixpoint cp (s : string) : list N :=
   match s with EmptyString => [] | String a t => Ascii.N_of_ascii a :: cp t end.
